@@ -106,7 +106,7 @@ class Unit:
             elif cmd == 'expand':
                 self.do_expand(pos[0], pos[1], kw)
                 i += 1
-            elif cmd == 'fn':
+            elif cmd in ('fn', 'selectarm'):
                 j = i + 1
                 block = []
                 while j < len(tl) and tl[j].strip() != '//@endfn':
@@ -114,6 +114,8 @@ class Unit:
                     j += 1
                 if j >= len(tl):
                     raise ValueError('%s:%d: //@fn without //@endfn' % (tpl_path, i + 1))
+                if cmd == 'selectarm':
+                    kw['selectarm'] = kw.get('arm', '0')
                 self.do_fn(pos[0], kw, block, rel_tpl)
                 i = j + 1
             else:
@@ -338,6 +340,40 @@ class Unit:
         body = it.body_text()
         sig_line = it.line
         body_line = it.body_line()
+        if 'selectarm' in kw:
+            # W7: one arm of the `futures::select!` of this function becomes a function of its own.
+            # The arm body is copied verbatim; statements that re-arm the select futures are dropped
+            # (regex `drop`), `return Ok(())` becomes `return Ok(Flow::Exit)`, falling off the end of
+            # the arm becomes `Ok(Flow::Continue)`.  The signature comes from the template (`sig=`).
+            bm = mask(body)
+            sm_ = re.search(r'futures::select!\s*\{', bm)
+            if not sm_:
+                raise AnchorLost('%s::%s: no futures::select! found' % (rel, name))
+            so = sm_.end() - 1
+            sc = match_close(bm, so)
+            arms = []
+            k = so + 1
+            while k < sc:
+                arrow = bm.find('=>', k, sc)
+                if arrow < 0:
+                    break
+                ob = bm.index('{', arrow)
+                cb = match_close(bm, ob)
+                arms.append((k, arrow, ob, cb))
+                k = cb + 1
+                while k < sc and bm[k] in ' ,\n\t':
+                    k += 1
+            an = int(kw['selectarm'])
+            if an >= len(arms):
+                raise AnchorLost('%s::%s: select! has only %d arms' % (rel, name, len(arms)))
+            a0, arrow, ob, cb = arms[an]
+            head = norm(body[a0:arrow])
+            if kw.get('armhead') and not re.search(kw['armhead'], head):
+                raise AnchorLost('%s::%s: select! arm %d is `%s`, expected /%s/' % (rel, name, an, head, kw['armhead']))
+            body_line = body_line + body.count('\n', 0, ob)
+            body = body[ob:cb + 1]
+            sig = kw['sig']
+            self.rw.hit('W7.select_arm')
         # --- signature ---
         s = self.rw.strip_comments(sig).rstrip()
         s = self.rw.pub_crate(s)
@@ -345,7 +381,7 @@ class Unit:
             s = re.sub(r'^(pub(\s*\([^)]*\))?\s+)?', kw['vis'] + ' ' if kw['vis'] != 'none' else '', s, count=1)
         if 'as' in kw:
             s = re.sub(r'\bfn\s+' + re.escape(name) + r'\b', 'fn ' + kw['as'], s, count=1)
-        if 'ret' in kw:
+        if 'ret' in kw and 'selectarm' not in kw:
             m = mask(s)
             # last `->` at bracket depth 0
             depth, arrow = 0, -1
@@ -375,6 +411,30 @@ class Unit:
         self.rw.w9_skip = kw.get('w9skip')
         b = self.rw.apply(b, rules)
         self.rw.w9_skip = None
+        if kw.get('until'):
+            # W7p: only the statements before the first line matching `until` are kept (prologue extraction)
+            bl_ = b.split('\n')
+            cut = None
+            for q, l_ in enumerate(bl_):
+                if re.search(kw['until'], l_):
+                    cut = q
+                    break
+            if cut is None:
+                raise AnchorLost('%s::%s: `until` anchor /%s/ not found' % (rel, name, kw['until']))
+            b = '\n'.join(bl_[:cut]) + '\n        ' + kw.get('tail', 'Ok(())') + '\n    }'
+            self.rw.hit('W7.prologue_cut')
+        if 'selectarm' in kw:
+            if kw.get('drop'):
+                b2, n = re.subn(r'\n[ \t]*(?:%s)[^;]*;' % kw['drop'], '', b)
+                if n == 0:
+                    raise AnchorLost('%s::%s: re-arm statement /%s/ not found in select arm' % (rel, name, kw['drop']))
+                self.rw.hit('W7.rearm_dropped', n)
+                b = b2
+            b, n = re.subn(r'\breturn\s+Ok\(\(\)\)', 'return Ok(Flow::Exit)', b)
+            self.rw.hit('W7.exit_marked', n)
+            e = b.rstrip()
+            assert e.endswith('}')
+            b = e[:-1].rstrip() + '\n        Ok(Flow::Continue)\n    }'
         for sub in kw.get('sub', '').split(';;'):
             if '=>' in sub:
                 a, c = sub.split('=>', 1)
